@@ -608,10 +608,13 @@ func stringPartFunc(rtParams FunctionParameterTypes, val any, fn func(string, in
 		return "", fmt.Errorf("parameter must not be negative")
 	}
 
-	paramAsInt := int(param.IntPart())
-
 	if valIfc, ok := val.(string); ok {
-		return fn(valIfc, paramAsInt)
+		// clamp before converting so that a huge count cannot wrap around
+		if strLen := decimal.NewFromInt(int64(len(valIfc))); param.GreaterThan(strLen) {
+			param = strLen
+		}
+
+		return fn(valIfc, int(param.IntPart()))
 	}
 
 	return "", fmt.Errorf("value wasn't string")
